@@ -99,6 +99,11 @@ pub fn run_program(src: &str, opts: &RunOpts) -> Outcome {
         Ok(x) => x,
     };
     let (igr, udts) = generated;
+    Outcome::Ran(run_compiled(igr, udts, opts))
+}
+
+/// runs an already generated instruction list
+pub fn run_compiled(igr: rusty_basic::instruction_generator::InstructionGeneratorResult, udts: rusty_parser::UserDefinedTypes, opts: &RunOpts) -> Ran {
     let n_instructions = igr.instructions.len();
     let statement_addresses = igr.statement_addresses.clone();
     let stdin = opts.stdin.clone();
@@ -108,17 +113,7 @@ pub fn run_program(src: &str, opts: &RunOpts) -> Outcome {
     match r {
         Err(msg) => {
             let end = if msg.contains(BUDGET_EXHAUSTED) { End::Budget } else { End::Panic(msg) };
-            Outcome::Ran(Ran {
-                end,
-                stdout: vec![],
-                lpt1: vec![],
-                globals: vec![],
-                steps: 0,
-                trace: None,
-                final_context: (0, 0),
-                n_instructions,
-                statement_addresses,
-            })
+            Ran { end, stdout: vec![], lpt1: vec![], globals: vec![], steps: 0, trace: None, final_context: (0, 0), n_instructions, statement_addresses }
         }
         Ok(RunOutcome { result, stdout, lpt1, globals, steps, trace, final_context }) => {
             let end = match result {
@@ -131,7 +126,7 @@ pub fn run_program(src: &str, opts: &RunOpts) -> Outcome {
                     }
                 }
             };
-            Outcome::Ran(Ran { end, stdout, lpt1, globals, steps, trace, final_context, n_instructions, statement_addresses })
+            Ran { end, stdout, lpt1, globals, steps, trace, final_context, n_instructions, statement_addresses }
         }
     }
 }
